@@ -344,3 +344,84 @@ Proof.
   rewrite <- app_assoc. unfold spec_count_col, ds_write. cbn [app].
   rewrite (sorted_spans_count (V:=list (list Z)) [] kr kr eq_refl). reflexivity.
 Qed.
+
+(* ---- min / max / first / last on a plain target column ------------------------------------------------ *)
+Definition kernel_Z (a:agg) : list Z -> list Z -> res (list Z) :=
+  match a with
+  | AMin => apply_spans_min Z.ltb 0
+  | AMax => apply_spans_max Z.ltb 0
+  | AFirst => apply_spans_first 0
+  | ALast => apply_spans_last 0
+  end.
+
+Lemma kernel_Z_ref a sp d : valid_spans (len d) sp ->
+  kernel_Z a sp d = Ok (reduce_spans (fun (_:Z) l => agg_scalar a l) sp d).
+Proof.
+  intros H. destruct a; cbn [kernel_Z agg_scalar].
+  - exact (apply_spans_min_pf Z Z.ltb 0 0 sp d Z_ltb_strict_total H).
+  - exact (apply_spans_max_pf Z Z.ltb 0 0 sp d Z_ltb_strict_total H).
+  - exact (apply_spans_first_pf Z 0 0 sp d H).
+  - exact (apply_spans_last_pf Z 0 0 sp d H).
+Qed.
+
+(* the per-target body of agg_targets *)
+Definition agg_one (a:agg) (g:gb) (f:field) : res field :=
+  match g_sorted_index g with
+  | Some si =>
+    do r1 <- field_apply_index f si (Some (create_like f)) false;
+    do nf1 <- the_target r1;
+    do r2 <- field_apply_spans a nf1 (g_spans g) None true;
+    Ok (r_src r2)
+  | None =>
+    do r <- field_apply_spans a f (g_spans g) (Some (create_like f)) false;
+    the_target r
+  end.
+
+Lemma field_apply_spans_dat a m w d sp target in_place :
+  ssorted sp -> valid_spans (len d) sp -> in_place && is_some target = false ->
+  field_apply_spans a (mkField m w (BDat d)) sp target in_place
+  = deliver_spans (mkField m w (BDat d)) (reduce_spans (fun (_:Z) l => agg_scalar a l) sp d) target in_place.
+Proof.
+  intros Hss Hv Hflag. unfold field_apply_spans. rewrite (adj_any_eq_ssorted sp Hss), Hflag. cbn [fbody].
+  pose proof (kernel_Z_ref a sp d Hv) as Hk. destruct a; cbn [kernel_Z] in Hk; rewrite Hk; reflexivity.
+Qed.
+
+Theorem agg_one_dat cols by_ hint kr kcs a f d :
+  groupby_pre cols by_ hint = true -> key_columns cols by_ = Some kcs ->
+  kr = FilterIndexSpec.rows_of (nrows cols) kcs ->
+  fbody f = BDat d -> len d = nrows cols ->
+  agg_one a (gb_of by_ hint kr) f = Ok (mkField (fmeta f) true (BDat (agg_ref (agg_scalar a) kr d))).
+Proof.
+  intros Hpre Hkc Hkr Hb Hd. set (n := nrows cols) in *.
+  pose proof (sp_valid cols by_ hint kr kcs Hpre Hkc Hkr) as Hv. fold n in Hv.
+  pose proof (sp_ssorted cols by_ hint kr kcs Hpre Hkc Hkr) as Hss.
+  assert (Hlkr : length kr = length d).
+  { rewrite (kr_length cols kr kcs Hkr). unfold len in Hd. fold n. pose proof (n_nonneg cols by_ hint kcs Hpre Hkc). fold n in H. lia. }
+  unfold agg_one. rewrite (g_spans_eq cols by_ hint kr kcs Hpre Hkc Hkr).
+  destruct f as [m w b]. cbn [fbody fmeta] in *. subst b.
+  destruct (g_sorted_index (gb_of by_ hint kr)) as [q|] eqn:Eq.
+  - assert (q = lexsort_perm kr).
+    { unfold gb_of in Eq. destruct (hint || rows_sortedb bytes_ltb kr); cbn in Eq; congruence. }
+    subst q.
+    pose proof (q_in_range cols by_ hint kr kcs Hpre Hkc Hkr) as Hq. fold n in Hq.
+    rewrite apply_index_into_like by (try constructor; unfold field_len; cbn [fbody]; rewrite Hd; exact Hq).
+    cbn [bind the_target r_tgt fmeta fbody]. rewrite dat_select.
+    rewrite field_apply_spans_dat; try assumption; try reflexivity.
+    2:{ rewrite len_gather. rewrite (len_q cols by_ hint kr kcs Hpre Hkc Hkr). exact Hv. }
+    unfold deliver_spans. cbn [fwr negb bind r_src with_body fmeta]. unfold ds_write, ds_clear. cbn [app].
+    rewrite <- (sorted_spans_reduce 0 (agg_scalar a) kr d Hlkr). reflexivity.
+  - assert (Es : hint || rows_sortedb bytes_ltb kr = true).
+    { unfold gb_of in Eq. destruct (hint || rows_sortedb bytes_ltb kr); [reflexivity|cbn in Eq; discriminate]. }
+    rewrite field_apply_spans_dat; try assumption; try reflexivity; [|rewrite Hd; exact Hv].
+    unfold deliver_spans, create_like. cbn [fbody fmeta fwr bind the_target r_tgt with_body].
+    unfold ds_write, ds_clear. cbn [app].
+    rewrite <- (sorted_spans_reduce 0 (agg_scalar a) kr d Hlkr).
+    destruct (sorted_input_unchanged 0 kr d Hlkr (hint_sorted cols by_ hint kr kcs Hpre Hkc Hkr Es)) as [_ ->].
+    reflexivity.
+Qed.
+
+Lemma agg_targets_unfold_pf a cols g t rest ddf f :
+  lookup t cols = Some f -> has_name (agg_name a t) ddf = false ->
+  agg_targets a cols g (t :: rest) ddf
+  = (do nf <- agg_one a g f; agg_targets a cols g rest (ddf ++ [(agg_name a t, nf)])).
+Proof. intros Hl Hn. cbn [agg_targets]. rewrite Hl, Hn. reflexivity. Qed.
